@@ -321,7 +321,9 @@ def run(seed, tier, workdir):
             if x < 60:
                 text += 1
                 wid = r.pick(mids) if not r.chance(4) else ''
-                wf = tg.workflow(wid=wid or 'n9009', dup=(6 if r.chance(15) else 0), anonp=0, nextp=5, onp=70)
+                # these models are started: no `next` jumps (a backward or self jump is a legitimate endless loop), the tree
+                # cases above cover `next` without running anything
+                wf = tg.workflow(wid=wid or 'n9009', dup=(6 if r.chance(15) else 0), anonp=0, nextp=0, onp=70)
                 wf['id'] = wid
                 wf['name'] = f"t{text}"
                 wf['ver'] = r.below(3)
